@@ -22,5 +22,6 @@ func init() {
 			"sort.Slice modelled as insertion sort calling the real less closure (exact for n<=12)",
 		},
 		QuickSecs: 600,
+		LevelNote: "trusted base: go/ssa, the interp fork, SMT encodings of Go int/float ops (validated by native replay of sampled path models), insertion-sort model of sort.Slice, z3 4.8.12 and cvc5 1.0.3",
 	})
 }
